@@ -287,7 +287,8 @@ func (p *Prog) AllFuncs() []*ssa.Function {
 		} else if p.ssaPkgs[top.Pkg.Pkg.Path()] == nil {
 			continue
 		}
-		if fn.Blocks == nil || fn.Synthetic != "" {
+		// range-over-func loop bodies are synthetic closures that hold user code
+		if fn.Blocks == nil || (fn.Synthetic != "" && !strings.HasPrefix(fn.Synthetic, "range-over-func")) {
 			continue
 		}
 		out = append(out, fn)
